@@ -42,11 +42,17 @@ type Gen struct {
 	setup   []Op
 	inBlock bool
 	Malformed int // percent
+	SimPct    int // percent of transactions that are only simulated
+	pendingReal *Op
 	seed0     uint64
 }
 
 func NewGen(w *World, seed uint64, profile string) *Gen {
 	g := &Gen{W: w, R: NewRng(seed), Profile: profile, Malformed: 20, seed0: seed}
+	switch profile {
+	case "main", "staking", "did", "auth":
+		g.SimPct = 8
+	}
 	n := 3 + g.R.Intn(4)
 	for i := 1; i <= n; i++ {
 		g.Nodes = append(g.Nodes, i)
@@ -81,6 +87,8 @@ func NewGen(w *World, seed uint64, profile string) *Gen {
 	for _, o := range g.Owners {
 		g.setup = append(g.setup, Op{K: "payaddr", Creator: o, Did: o + 1})
 	}
+	// account 11 is a sponsor: its did:key has a payment address, so it can pay for other owners' orders
+	g.setup = append(g.setup, Op{K: "payaddr", Creator: 11, Did: 11 + 1})
 	if profile == "genesis" {
 		for k, i := range g.Nodes {
 			if k < 2 {
@@ -257,7 +265,25 @@ func (g *Gen) Next() Op {
 		return Op{K: "genesis"}
 	}
 	g.phase++
-	return g.tx()
+	if g.pendingReal != nil {
+		op := *g.pendingReal
+		g.pendingReal = nil
+		return op
+	}
+	op := g.tx()
+	// non-consensus calls between consensus calls: the same kind of transaction is sometimes only
+	// simulated (mempool check / gas estimation) — a replica that did not serve the call, and a
+	// restarted one, must not be able to tell
+	if g.SimPct > 0 && IsTxOp(op.K) && g.R.Chance(g.SimPct) {
+		inner := op
+		if g.R.Chance(60) {
+			// the usual client flow: estimate gas by simulation, then broadcast the same transaction
+			real := op
+			g.pendingReal = &real
+		}
+		return Op{K: "sim", Inner: &inner}
+	}
+	return op
 }
 
 type liveInfo struct {
@@ -287,6 +313,20 @@ func (g *Gen) ownerIndexOfDid(did string) int {
 		}
 	}
 	return 0
+}
+
+// writerOf picks who signs a request on model m: its owner, or sometimes a DID with read-write access
+func (g *Gen) writerOf(m modeltypes.Metadata) int {
+	o := g.ownerIndexOfDid(m.Owner)
+	if len(m.ReadwriteDids) > 0 && g.R.Chance(45) {
+		d := m.ReadwriteDids[g.R.Intn(len(m.ReadwriteDids))]
+		for i, x := range g.W.Dids {
+			if x.Did == d {
+				return i
+			}
+		}
+	}
+	return o
 }
 
 func (g *Gen) durations() uint64 {
@@ -532,6 +572,10 @@ func (g *Gen) tx() Op {
 		if r.Chance(10) {
 			op.Size = uint64(r.Intn(3))
 		}
+		if r.Chance(8) {
+			// sponsored payment: the sponsor itself submits the owner-signed proposal
+			op.PayDid, op.Creator = 11+1, 11
+		}
 		if bad {
 			switch r.Intn(9) {
 			case 0:
@@ -622,7 +666,7 @@ func (g *Gen) tx() Op {
 			return g.smallTx(li)
 		}
 		m := li.metas[r.Intn(len(li.metas))]
-		o := g.ownerIndexOfDid(m.Owner)
+		o := g.writerOf(m)
 		op := Op{K: "terminate", Creator: gw, Provider: gw + 1, Signer: o + 1, Owner: o + 1, DataId: m.DataId}
 		if bad || r.Chance(40) {
 			switch r.Intn(3) {
@@ -688,7 +732,7 @@ func (g *Gen) tx() Op {
 			return g.smallTx(li)
 		}
 		m := li.metas[r.Intn(len(li.metas))]
-		o := g.ownerIndexOfDid(m.Owner)
+		o := g.writerOf(m)
 		nc := g.newDataId()
 		op := Op{K: "store", Creator: gw, Provider: gw + 1, Signer: o + 1, Owner: o + 1, Duration: g.durations(), Replica: int32(1 + r.Intn(2)),
 			Timeout: int32(10 + r.Intn(200)), Alias: m.Alias, DataId: m.DataId, CommitId: m.Commit + "|" + nc, Size: uint64(1 + r.Intn(100000)), Operation: uint32(1 + r.Intn(2))}
@@ -796,12 +840,24 @@ func (g *Gen) lifecycleTx() Op {
 		if r.Chance(12) {
 			to = int32([]int{3600, 3599, 7200, 20000}[r.Intn(4)]) // timeouts of the order of the duration
 		}
-		return Op{K: "store", Creator: gw, Provider: gw + 1, Signer: owner + 1, Owner: owner + 1, Duration: []uint64{3600, 7200, 10800, 5000}[r.Intn(4)],
+		sop := Op{K: "store", Creator: gw, Provider: gw + 1, Signer: owner + 1, Owner: owner + 1, Duration: []uint64{3600, 7200, 10800, 5000}[r.Intn(4)],
 			Replica: int32(1 + r.Intn(3)), Timeout: to, Alias: alias, DataId: d, CommitId: d,
 			Size: uint64(1 + r.Intn(3_000_000)), Operation: 1}
+		if r.Chance(15) {
+			sop.PayDid, sop.Creator = 11+1, 11
+		}
+		return sop
 	}
 	m := li.metas[r.Intn(len(li.metas))]
 	o := g.ownerIndexOfDid(m.Owner)
+	if r.Chance(8) {
+		// grant or revoke read-write access (an update by the grantee may be in flight)
+		pop := Op{K: "perm", Creator: gw, Provider: gw + 1, Signer: o + 1, Owner: o + 1, DataId: m.DataId}
+		if len(m.ReadwriteDids) == 0 || r.Chance(40) {
+			pop.RwDids = []int{g.Owners[r.Intn(len(g.Owners))] + 1}
+		}
+		return pop
+	}
 	switch c := r.Intn(100); {
 	case c < 30:
 		rop := Op{K: "renew", Creator: gw, Provider: gw + 1, Signer: o + 1, Owner: o + 1, Duration: []uint64{3600, 3600, 7200, 14400, 4000}[r.Intn(5)], Timeout: 100, Data: []string{m.DataId}}
@@ -823,8 +879,13 @@ func (g *Gen) lifecycleTx() Op {
 		return Op{K: "terminate", Creator: gw, Provider: gw + 1, Signer: o + 1, Owner: o + 1, DataId: m.DataId}
 	case c < 60:
 		nc := g.newDataId()
-		return Op{K: "store", Creator: gw, Provider: gw + 1, Signer: o + 1, Owner: o + 1, Duration: []uint64{3600, 7200}[r.Intn(2)], Replica: int32(1 + r.Intn(2)),
+		wr := g.writerOf(m)
+		uop := Op{K: "store", Creator: gw, Provider: gw + 1, Signer: wr + 1, Owner: wr + 1, Duration: []uint64{3600, 7200}[r.Intn(2)], Replica: int32(1 + r.Intn(2)),
 			Timeout: int32(20 + r.Intn(200)), Alias: m.Alias, DataId: m.DataId, CommitId: m.Commit + "|" + nc, Size: uint64(1 + r.Intn(100000)), Operation: uint32(1 + r.Intn(2))}
+		if r.Chance(12) {
+			uop.PayDid, uop.Creator = 11+1, 11
+		}
+		return uop
 	case c < 80:
 		return Op{K: "claim", Creator: g.Nodes[r.Intn(len(g.Nodes))]}
 	case c < 88:
@@ -884,9 +945,13 @@ func (g *Gen) timeoutTx() Op {
 		g.Datas = append(g.Datas, d)
 		to := int32(4 + r.Intn(12))
 		dur := []uint64{3600, 100000, 7200, 3700}[r.Intn(4)]
-		return Op{K: "store", Creator: gw, Provider: gw + 1, Signer: owner + 1, Owner: owner + 1, Duration: dur,
+		top := Op{K: "store", Creator: gw, Provider: gw + 1, Signer: owner + 1, Owner: owner + 1, Duration: dur,
 			Replica: int32(1 + r.Intn(3)), Timeout: to, Alias: fmt.Sprintf("alias%d", g.dataSeq), DataId: d, CommitId: d,
 			Size: uint64(1 + r.Intn(2_000_000)), Operation: 1}
+		if r.Chance(20) {
+			top.PayDid, top.Creator = 11+1, 11
+		}
+		return top
 	}
 	switch c := r.Intn(100); {
 	case c < 25 && len(li.metas) > 0:
@@ -925,7 +990,27 @@ func (g *Gen) authTx() Op {
 	if len(li.orders) > 0 {
 		o = &li.orders[r.Intn(len(li.orders))]
 	}
-	switch r.Intn(12) {
+	switch r.Intn(15) {
+	case 12: // cancel somebody's order naming the order's own gateway (the adversary is not one of its addresses)
+		if o == nil {
+			break
+		}
+		return Op{K: "cancel", Creator: adv, Provider: g.acctIndex(o.Provider) + 1, OrderId: o.Id}
+	case 13: // legitimate: the hot key of honest node 1 submits an order through node 1
+		owner := g.Owners[r.Intn(len(g.Owners))]
+		d := g.newDataId()
+		return Op{K: "store", Creator: 7, Provider: 1 + 1, Signer: owner + 1, Owner: owner + 1, Duration: 3600, Replica: 1,
+			Timeout: 50, Alias: fmt.Sprintf("alias%d", g.dataSeq), DataId: d, CommitId: d, Size: 1000, Operation: 1}
+	case 14: // ready / complete / migrate naming the right gateway or provider, sent by the adversary
+		if o == nil {
+			break
+		}
+		for _, s := range li.shards {
+			if s.Status == ordertypes.ShardWaiting && r.Chance(50) {
+				return Op{K: "complete", Creator: adv, Provider: g.acctIndex(s.Sp) + 1, OrderId: s.OrderId, Size: s.Size_}
+			}
+		}
+		return Op{K: "cancel", Creator: []int{8, 9, 10}[r.Intn(3)], Provider: g.acctIndex(o.Provider) + 1, OrderId: o.Id}
 	case 0: // owner-signed proposal naming an honest gateway, submitted by the adversary through its own node
 		owner := g.Owners[r.Intn(len(g.Owners))]
 		d := g.newDataId()
